@@ -80,7 +80,7 @@ def judge_traces(scratch, jobs, results):
     (same universe module and constants as the generator that produced the history).  A trace that TLC cannot
     consume to its end turns the result into a failure of kind 'trace-rejected'.  Returns (judged, rejected, tlc states)."""
     import concurrent.futures, re
-    todo = [i for i, (j, r) in enumerate(zip(jobs, results)) if j.get('mode') in ('trace', 'trace-q') and r and r.get('lines')]
+    todo = [i for i, (j, r) in enumerate(zip(jobs, results)) if j.get('mode') in ('trace', 'trace-q', 'trace-f') and r and r.get('lines')]
     cfgs = {}
 
     def one(i):
@@ -124,6 +124,38 @@ def judge_traces(scratch, jobs, results):
         if r:
             r.pop('lines', None)
     return judged, rejected, states
+
+
+def trace_stage(scratch, items, seed_mul=29):
+    """free-running replays recorded and judged by TLC (spec/WalletTrace.tla) for the plug-in checks.
+    items: (gen cfg, module, universe extras, generator overrides, replay mode, number, depth).
+    A rejected trace or a run that does not become quiescent is replayed once more alone; only what comes back
+    keeps its failing result, the rest is marked inconclusive.  Returns (jobs, results, traces judged, TLC states)."""
+    tjobs = []
+    for cfg, mod, extra, ov, mode, n, depth in items:
+        sp = SIM(n, depth, **ov)
+        r = vlib.tlc(cfg, mod, scratch, overrides=sp['overrides'], simulate=dict(num=sp['simulate']['num'], depth=sp['simulate']['depth'], seed=vlib.seed() * seed_mul + len(tjobs)))
+        vlib.require_clean(r, 'generator (traces) ' + cfg)
+        u = dict(r['universe'])
+        u.update(extra)
+        for k, h in enumerate(x for x in (json.loads(y) for y in sorted(set(r['histories']))) if free_runnable(x)):
+            tjobs.append(dict(u=u, h=h, mode=mode, opt=dict(seed=vlib.seed() * 13 + k), src=cfg + ' (' + mode + ')',
+                              trace=dict(cfg=cfg, module=mod, overrides={a: b for a, b in sp['overrides'].items() if a not in ('GenDepth', 'GenRandom')},
+                                         pend=ov.get('Lifecycle') != 'TRUE' or ov.get('Removable') == '{}')))
+    tres = replay_jobs(scratch, tjobs)
+    judged, rejected, tstates = judge_traces(scratch, tjobs, tres)
+    bad = {'trace-rejected', 'free-not-quiescent', 'died', 'timeout'}
+    again = [i for i, r in enumerate(tres) if r is None or (set(kinds_of(r)) & bad)]
+    if again and len(again) <= 60:
+        res2 = replay_jobs(scratch, [tjobs[i] for i in again])
+        judge_traces(scratch, [tjobs[i] for i in again], res2)
+        for i, r2 in zip(again, res2):
+            if not (r2 and set(kinds_of(r2)) & bad):
+                tres[i] = dict(tres[i] or {}, ok=False, infra=True, err='harness: failing free-running replay did not fail again when replayed alone')
+            else:
+                r2['index'] = i
+                tres[i] = r2
+    return tjobs, tres, judged, tstates
 
 
 def kinds_of(res):
@@ -275,11 +307,11 @@ def follower_check(pid, tier, scratch, replay, plan):
             uni = dict(r['universe'])
             uni.update(g.get('universe_extra', {}))
             for h in take:
-                if g.get('mode') in ('trace', 'trace-q'):
+                if g.get('mode') in ('trace', 'trace-q', 'trace-f'):
                     tr = dict(cfg=g['cfg'], module=g['module'], overrides={k: v for k, v in ov.items() if k not in ('GenDepth', 'GenRandom')},
                               pend=g.get('trace_pend', ov.get('Lifecycle') != 'TRUE'))
                 # the inputs of a model transaction are a set: every other replay lists them in reverse order
-                jobs.append(dict(u=dict(uni, revins=(len(jobs) % 2 == 1)), h=json.loads(h), mode=g.get('mode', ''), trace=tr if g.get('mode') in ('trace', 'trace-q') else None, opt=dict(g.get('opt', {}), seed=vlib.seed() * 7 + len(jobs)), src=g['cfg'] + (' (free)' if g.get('mode') == 'free' else ''),
+                jobs.append(dict(u=dict(uni, revins=(len(jobs) % 2 == 1)), h=json.loads(h), mode=g.get('mode', ''), trace=tr if g.get('mode') in ('trace', 'trace-q', 'trace-f') else None, opt=dict(g.get('opt', {}), seed=vlib.seed() * 7 + len(jobs)), src=g['cfg'] + (' (free)' if g.get('mode') == 'free' else ''),
                                  ignore=PENDING_KINDS if ov.get('Lifecycle') == 'TRUE' else []))
             if not sim:
                 states += r.get('distinct', 0)
